@@ -1006,11 +1006,109 @@ def r05_10(ctx, counts) -> RuleResult:
     return res
 
 
+ATTR_MEMO_SAMPLE = """
+class N:
+    def get_document(self, replace=True, as_parent=True):
+        if not replace and self.tree.dummy is not None:
+            return self.tree.dummy
+        doc = Document(self)
+        if as_parent:
+            self.parent = doc
+        self.tree.dummy = doc
+        return doc
+"""
+
+
+def attribute_memo_gaps(fnode: ast.AST) -> list[tuple[ast.Return, str, list[str]]]:
+    """(early return, memo attribute, parameters it ignores) for a method that returns a
+    stored attribute under a test of that attribute and stores the attribute itself"""
+    from ..engine.cfg import CFG
+    from ..engine.dataflow import branch_facts
+    from ..engine.srcmodel import walk_local
+    a = fnode.args
+    params = [p_.arg for p_ in a.posonlyargs + a.args + a.kwonlyargs if p_.arg not in ('self', 'cls')]
+    if not params:
+        return []
+    stores = {dotted(t) for x in walk_local(fnode) if isinstance(x, (ast.Assign, ast.AnnAssign))
+              for t in (x.targets if isinstance(x, ast.Assign) else [x.target])
+              if isinstance(t, ast.Attribute)}
+    rets = [r for r in walk_local(fnode) if isinstance(r, ast.Return)
+            and isinstance(r.value, ast.Attribute) and dotted(r.value) in stores]
+    if not rets:
+        return []
+    cfg = CFG(fnode)
+    facts = branch_facts(cfg)
+    out = []
+    for r in rets:
+        d = dotted(r.value)
+        nd = [n_ for n_ in cfg.nodes if n_.ast is r]
+        if not nd:
+            continue
+        fs = facts[nd[0].id]
+        if not any(d in fa and ('is not None' in fa or 'is None' in fa or 'hasattr' in fa)
+                   for fa in fs):
+            continue
+        in_guard: set[str] = set()
+        for fa in fs:
+            try:
+                in_guard |= {y.id for y in ast.walk(ast.parse(fa[1:], mode='eval'))
+                             if isinstance(y, ast.Name)}
+            except SyntaxError:
+                pass
+        inside = {id(y) for y in ast.walk(r)}
+        used_later = {y.id for y in walk_local(fnode) if isinstance(y, ast.Name)
+                      and isinstance(y.ctx, ast.Load) and y.id in params and id(y) not in inside
+                      and getattr(y, 'lineno', 0) > r.lineno}
+        missing = sorted(used_later - in_guard)
+        out.append((r, d, missing))
+    return out
+
+
+def r05_11(ctx, counts) -> RuleResult:
+    """a value memoised on a shared object is not returned to a call with other parameters"""
+    model = ctx.model
+    res = RuleResult(
+        'R05.11', 'ATTRIBUTE-MEMO-IGNORES-PARAMETER',
+        'The attribute form of the memo idiom: a method returns `O.attr` early, under a test that '
+        'the attribute is set, and stores `O.attr` further down. Every parameter of the method '
+        'that the code after the early return reads (tests or uses) also appears in the tests '
+        'that guard the early return: otherwise a later call with another value of that '
+        'parameter receives what an earlier call built (a dummy document created unlinked for '
+        'a fragment context and returned to a call that needs it linked as the parent of the '
+        'root). Parameter-less memo properties are outside the rule.')
+    sample = [n_ for n_ in ast.walk(ast.parse(ATTR_MEMO_SAMPLE))
+              if isinstance(n_, ast.FunctionDef)][0]
+    if [(d, mi) for _, d, mi in attribute_memo_gaps(sample)] != [('self.tree.dummy', ['as_parent'])]:
+        raise AnalysisError('R05.11: the attribute memo of the built-in sample is not recognised')
+    n = nm = 0
+    for f in sorted(model.all_functions(), key=lambda q: q.key):
+        if not f.module.name.startswith('elementpath') or '.validators' in f.module.name:
+            continue
+        n += 1
+        for r, d, missing in attribute_memo_gaps(f.node):
+            nm += 1
+            res.instances.append(f'{f.key}: early return of `{d}` (L{r.lineno}); parameters read '
+                                 f'later and absent from its guard: {missing or None}')
+            if not missing:
+                res.ok()
+            else:
+                res.fail(finding('R05.11', f, r, f'memo {d} ignores {missing[0]}',
+                                 f'`return {d}` hands a stored value to every later call, but the '
+                                 f'rest of {f.name} depends on {", ".join(missing)}, which the '
+                                 f'guard of the early return does not test: a call with another '
+                                 f'{missing[0]} receives what an earlier call built'))
+    counts['functions_scanned_for_attribute_memos'] = n
+    counts['attribute_memos_with_parameters'] = nm
+    if n < 1300:
+        raise AnalysisError(f'only {n} functions scanned for attribute memos')
+    return res
+
+
 def run(ctx) -> dict:
     counts: dict[str, int] = {}
     results = [r05_1(ctx, counts), r05_2(ctx, counts), r05_3(ctx, counts), r05_4(ctx, counts),
                r05_5(ctx, counts), r05_6(ctx, counts), r05_7(ctx, counts),
-               r05_8(ctx, counts), r05_10(ctx, counts)]
+               r05_8(ctx, counts), r05_10(ctx, counts), r05_11(ctx, counts)]
     # process-wide state is written only by the reviewed inventory (no new caches)
     from .c19_global import r19_5 as _r19_5
     _state = _r19_5(ctx, counts, None, 6)
